@@ -50,7 +50,9 @@ type scen struct {
 	Closers  []cspec
 	Cut      bool
 	Short    bool
-	Listener bool // scenario about the connListener (Accept/Close)
+	Listener bool   // scenario about the connListener (Accept/Close)
+	Timeout  bool   // one trunk read may fail with a deadline error while the trunk keeps working
+	Script   string // "reopen" | "closed-id-flood": scripted histories with a connection closed (and opened again)
 	Bound    [2]int
 }
 
@@ -111,6 +113,11 @@ var scens = []scen{
 		Writers: []wspec{{"A", 1, []int{maxPayload + 1}}},
 		Readers: []rspec{{"B", 1, 0}},
 		Closers: []cspec{{"conn:A:1", 1}}, Bound: [2]int{1, 2}},
+	{Name: "c11-read-deadline-error", Props: []string{"C11"}, IDs: []uint32{1, 2}, Qlen: 8, Timeout: true,
+		Writers: []wspec{{"A", 1, []int{maxPayload + 1, 2}}, {"A", 2, []int{3}}},
+		Readers: []rspec{{"B", 1, 0}, {"B", 2, 0}}, Bound: [2]int{2, 3}},
+	{Name: "c10-close-and-reopen-id", Props: []string{"C10"}, IDs: []uint32{1, 2}, Qlen: 8, Script: "reopen", Bound: [2]int{2, 3}},
+	{Name: "c10-traffic-for-closed-id", Props: []string{"C10"}, IDs: []uint32{1, 2}, Qlen: 2, Script: "closed-id-flood", Bound: [2]int{2, 3}},
 	{Name: "c11-listener", Props: []string{"C11"}, IDs: []uint32{3}, Qlen: 8, Listener: true,
 		Closers: []cspec{{"listener:A:3", 2}}, Bound: [2]int{3, 4}},
 }
@@ -175,7 +182,7 @@ func errStr(err error) string {
 func (w *world) body(s *vsched.Sched) {
 	sc := w.sc
 	s.Spawn("main", func() {
-		f := &faultCfg{cut: sc.Cut, shortRead: sc.Short}
+		f := &faultCfg{cut: sc.Cut, shortRead: sc.Short, timeout: sc.Timeout}
 		a, b := newPipe(f)
 		w.pipe = a.p
 		var opts []multiplex.Option
@@ -185,6 +192,10 @@ func (w *world) body(s *vsched.Sched) {
 		mux := map[string]multiplex.Mux{"A": multiplex.Multiplex(a, opts...), "B": multiplex.Multiplex(b, opts...)}
 		if sc.Listener {
 			w.listenerScenario(mux)
+			return
+		}
+		if sc.Script != "" {
+			w.scriptScenario(mux)
 			return
 		}
 		conns := map[string]net.Conn{}
@@ -344,8 +355,106 @@ func (w *world) listenerScenario(mux map[string]multiplex.Mux) {
 	w.closedOK = true
 }
 
+// scriptScenario: histories in which a logical connection is closed locally (and its id opened
+// again) between two bursts of traffic for the same id.
+//
+//	reopen:          A writes f1 on id 1, B reads it; B closes its conn 1 and opens id 1 again; then A
+//	                 writes f2 (two frames) on id 1 concurrently with B reading from the new conn: the
+//	                 new conn must receive exactly f2's frames.
+//	closed-id-flood: A writes f1 on id 1, B reads it; B closes conn 1; then A writes more frames for
+//	                 id 1 than a read queue holds and one frame for id 2: frames for the closed id are
+//	                 dropped, the reader of id 2 still receives its frame and nothing fails.
+func (w *world) scriptScenario(mux map[string]multiplex.Mux) {
+	sc := w.sc
+	open := func(e string, id uint32) net.Conn {
+		c, err := mux[e].Open(multiplex.ConnID(id))
+		if err != nil {
+			panic(err)
+		}
+		return c
+	}
+	a1, b1, a2, b2 := open("A", 1), open("B", 1), open("A", 2), open("B", 2)
+	note := func(f string, a ...any) { w.listenerV = append(w.listenerV, fmt.Sprintf(f, a...)) }
+	buf := make([]byte, maxPayload+4)
+	f1 := payload(0, 0, 3)
+	if n, err := a1.Write(f1); err != nil || n != len(f1) {
+		note("write of the first payload on id 1 did not complete: %d, %v", n, err)
+		return
+	}
+	if n, err := b1.Read(buf); err != nil || string(buf[:n]) != string(f1) {
+		note("reader B:1 received %x (err %v), expected %x", buf[:n], err, f1)
+		return
+	}
+	b1.Close()
+	done := 0
+	switch sc.Script {
+	case "reopen":
+		nb1 := open("B", 1)
+		if nb1 == b1 {
+			note("opening id 1 again after Close returned the closed connection")
+			return
+		}
+		f2 := payload(1, 0, maxPayload+2)
+		var got [][]byte
+		var rerr error
+		vsched.Go("W", func() {
+			defer func() { done++ }()
+			if n, err := a1.Write(f2); err != nil || n != len(f2) {
+				note("write on id 1 after the peer reopened it did not complete: %d, %v", n, err)
+			}
+		})
+		vsched.Go("R", func() {
+			defer func() { done++ }()
+			rb := make([]byte, maxPayload+4)
+			for len(got) < 2 {
+				n, err := nb1.Read(rb)
+				if err != nil {
+					rerr = err
+					return
+				}
+				got = append(got, append([]byte(nil), rb[:n]...))
+			}
+		})
+		vsched.Block("join", nil, func() bool { return done == 2 })
+		want := chunks(f2)
+		if rerr != nil || len(got) != len(want) || string(got[0]) != string(want[0]) || string(got[1]) != string(want[1]) {
+			note("the reopened connection B:1 received %x (err %v), expected the frames %x written after it was opened", got, rerr, want)
+		}
+		w.accepts = append(w.accepts, fmt.Sprintf("reopened=%d", len(got)))
+	case "closed-id-flood":
+		var got []byte
+		var rerr error
+		vsched.Go("W", func() {
+			defer func() { done++ }()
+			for k := 0; k < sc.Qlen+2; k++ {
+				if _, err := a1.Write(payload(2, k, 1+k)); err != nil {
+					note("write #%d on id 1 (closed at the peer) failed: %v", k, err)
+					return
+				}
+			}
+			if _, err := a2.Write(payload(3, 0, 2)); err != nil {
+				note("write on id 2 failed: %v", err)
+			}
+		})
+		vsched.Go("R", func() {
+			defer func() { done++ }()
+			rb := make([]byte, maxPayload+4)
+			n, err := b2.Read(rb)
+			got, rerr = append([]byte(nil), rb[:n]...), err
+		})
+		vsched.Block("join", nil, func() bool { return done == 2 })
+		if rerr != nil || string(got) != string(payload(3, 0, 2)) {
+			note("reader B:2 received %x (err %v), expected %x although nothing failed: traffic for an id that was closed locally must be dropped without affecting other connections", got, rerr, payload(3, 0, 2))
+		}
+		w.accepts = append(w.accepts, fmt.Sprintf("other-id=%d", len(got)))
+	}
+	mux["A"].Close()
+	mux["B"].Close()
+	w.closedOK = true
+}
+
 func (w *world) mayFail() bool {
-	return w.sc.Cut || len(w.sc.Closers) > 0 || w.overflowExpected()
+	return w.sc.Cut || w.sc.Timeout || len(w.sc.Closers) > 0 || w.overflowExpected()
 }
 
 func (w *world) hasConnCloser() bool {
@@ -449,6 +558,10 @@ func (w *world) verdict(ex *vsched.Exec) (viol []string, outcome string) {
 	if ex.Status == "deadlock" || ex.Status == "livelock" {
 		viol = append(viol, fmt.Sprintf("%s: threads still blocked: %s", ex.Status, strings.Join(ex.Blocked, ", ")))
 	}
+	if sc.Script != "" {
+		viol = append(viol, w.listenerV...)
+		return viol, strings.Join(w.accepts, ",")
+	}
 	if sc.Listener {
 		viol = append(viol, w.listenerV...)
 		conns := 0
@@ -482,7 +595,7 @@ func (w *world) verdict(ex *vsched.Exec) (viol []string, outcome string) {
 		if w.mayFail() && ex.Status == "ok" && r.MaxFrames == 0 && ro.err == "" {
 			viol = append(viol, fmt.Sprintf("reader %s:%d ended without an error", r.End, r.ID))
 		}
-		if ro.err != "" && !w.pipe.severed && !w.overflowExpected() && !ro.eof {
+		if ro.err != "" && !w.pipe.severed && w.pipe.timedOut == "" && !w.overflowExpected() && !ro.eof {
 			viol = append(viol, fmt.Sprintf("reader %s:%d got %q after an orderly close, expected end-of-file", r.End, r.ID, ro.err))
 		}
 		fmt.Fprintf(&ob, "%s:%d=%d/%v ", r.End, r.ID, len(ro.frames), ro.err != "")
@@ -502,6 +615,9 @@ func (w *world) verdict(ex *vsched.Exec) (viol []string, outcome string) {
 	}
 	if w.pipe != nil && w.pipe.severed {
 		ob.WriteString("cut ")
+	}
+	if w.pipe != nil && w.pipe.timedOut != "" {
+		ob.WriteString("deadline-error ")
 	}
 	return viol, ob.String()
 }
